@@ -89,8 +89,8 @@ func runC17SioRestart(c *sim.Ctx, t *testing.T) {
 			shadow := map[string]*crew.Machine{}
 			for {
 				sim.Yield("h#consume")
-				select {
-				case <-ctx.Done():
+				r, ok := sim.RecvOrDone("h#consume-select", ctx.Done(), (<-chan *Result)(out))
+				if !ok {
 					sim.Yield("h#consumer-stopping")
 					if final != nil {
 						b, _ := json.Marshal(shadow)
@@ -98,12 +98,11 @@ func runC17SioRestart(c *sim.Ctx, t *testing.T) {
 						sim.Yield("h#store-handed-over")
 					}
 					return
-				case r := <-out:
-					sim.Yield("h#consumed")
-					vfFold(shadow, r)
-					js, err := json.Marshal(r)
-					lg.Add(sim.Ev{Kind: "result", N: int64(phase), Val: string(js), Err: vfErr(err)})
 				}
+				sim.Yield("h#consumed")
+				vfFold(shadow, r)
+				js, err := json.Marshal(r)
+				lg.Add(sim.Ev{Kind: "result", N: int64(phase), Val: string(js), Err: vfErr(err)})
 			}
 		}
 		s.Go("loop1", func(tk *sim.Task) { crew1.Loop(ctx1) })
@@ -156,10 +155,7 @@ func runC17SioRestart(c *sim.Ctx, t *testing.T) {
 			// the restarted crew takes requests like the first one did
 			send2 := func(m map[string]interface{}) {
 				sim.Yield("h#send")
-				select {
-				case <-ctx2.Done():
-				case cp2in <- vfJSONCopy(m):
-				}
+				sim.SendOrDone("h#send-select", ctx2.Done(), (chan<- interface{})(cp2in), vfJSONCopy(m))
 				sim.Yield("h#sent")
 			}
 			sim.Sleep(5 * time.Millisecond)
